@@ -60,7 +60,7 @@ class RecMethod(Abstract):
         r = o.returns.get(self.mname, "__child__")
         if callable(r):
             return r(I, o, args, kwargs)
-        if r == "__child__":
+        if isinstance(r, str) and r == "__child__":
             return Recorder("%s.%s()" % (o.name, self.mname))
         return r
 
